@@ -35,6 +35,7 @@ Proof.
   - reflexivity.
   - destruct pre; discriminate.
   - destruct pre; discriminate.
+  - reflexivity.
   - apply all_empty_count0 in Hc. eapply KSplit_empty_flag; eauto.
 Qed.
 
